@@ -54,10 +54,11 @@ func NewValues(m []meta.Leafable, objs ...interface{}) ([]val.Value, error) {
 }
 
 // Incoming value should be of appropriate type according to given data type format
-func NewValue(typ *meta.Type, v interface{}) (val.Value, error) {
+func NewValue(typ *meta.Type, v interface{}) (result val.Value, err error) {
 	defer func() {
 		if r := recover(); r != nil {
-			panic(fmt.Sprintf("%s : %s", typ.Ident(), r))
+			result = nil
+			err = fmt.Errorf("%s : could not convert %T. %v", typ.Ident(), v, r)
 		}
 	}()
 	if v == nil {
@@ -172,6 +173,9 @@ func toEnumList(src val.EnumList, v interface{}) (val.EnumList, error) {
 }
 
 func toEnum(src val.EnumList, v interface{}) (val.Enum, error) {
+	if v == nil {
+		return val.Enum{}, fmt.Errorf("could not coerce nil into enum %v", src.String())
+	}
 	if id, isNum := val.Conv(val.FmtInt32, v); isNum == nil {
 		if e, found := src.ById(id.Value().(int)); found {
 			return e, nil
